@@ -498,3 +498,89 @@ impl Family for FCyclic {
         module(vec![("main", func(&[], cards))])
     }
 }
+
+// ------------------------------------------------------------------------------------------------
+// keys a lookup cannot find again
+// ------------------------------------------------------------------------------------------------
+
+/// Tables holding an entry whose key cannot be found again (NaN, which is not equal to itself; a
+/// table whose content - and with it its hash - changed after it was used as a key), or an unusual
+/// key (infinities, negative zero, function values, an empty table, equal-content tables), read
+/// through every reader. The statement of C07 excludes such keys; totality (C04) does not.
+pub struct FOddKeys;
+
+impl FOddKeys {
+    const KEYS: u64 = 10;
+    const READERS: u64 = 14;
+    const SIZES: u64 = 2;
+}
+
+impl Family for FOddKeys {
+    fn name(&self) -> &'static str {
+        "F-oddkeys"
+    }
+    fn len(&self) -> u64 {
+        Self::KEYS * Self::READERS * Self::SIZES
+    }
+    fn case(&self, idx: u64) -> Module {
+        let key = idx % Self::KEYS;
+        let reader = (idx / Self::KEYS) % Self::READERS;
+        let big = idx / (Self::KEYS * Self::READERS) == 1;
+        let mut cards = vec![sv("t", C::CreateTable), sv("kt", C::CreateTable), sv("kt2", C::CreateTable)];
+        if big {
+            cards.push(C::SetProperty(b(int(10)), b(rv("t")), b(int(0))));
+            cards.push(C::SetProperty(b(int(11)), b(rv("t")), b(s("first"))));
+        }
+        // the odd entry
+        let mut after: Vec<C> = Vec::new();
+        let k: C = match key {
+            0 => C::Float(f64::NAN),
+            1 => bin(BinOp::Div, int(0), int(0)),
+            2 => C::Float(f64::INFINITY),
+            3 => C::Float(-0.0),
+            4 => {
+                // a table key that is mutated after the insertion
+                after.push(C::SetProperty(b(int(2)), b(rv("kt")), b(s("x"))));
+                rv("kt")
+            }
+            5 => {
+                // two equal-content table keys, one mutated later
+                cards.push(C::SetProperty(b(int(21)), b(rv("t")), b(rv("kt2"))));
+                after.push(C::Append(b(int(1)), b(rv("kt2"))));
+                rv("kt")
+            }
+            6 => C::Function("main2".into()),
+            7 => C::NativeFunction("echo".into()),
+            8 => {
+                cards.push(sv("cl", C::Closure(vec![], vec![C::Return(b(int(1)))])));
+                rv("cl")
+            }
+            _ => C::Float(f64::NEG_INFINITY),
+        };
+        cards.push(sv("oddkey", k));
+        cards.push(C::SetProperty(b(int(20)), b(rv("t")), b(rv("oddkey"))));
+        if big {
+            cards.push(C::SetProperty(b(int(12)), b(rv("t")), b(s("last"))));
+        }
+        cards.extend(after);
+        let logv = |name: &str, v: C| sg("_sink", native("log2", vec![s(name), v]));
+        cards.push(match reader {
+            0 => C::ForEach { i: Some("i".into()), k: Some("k".into()), v: Some("v".into()), iterable: b(rv("t")), body: b(comp(vec![logv("i", rv("i")), logv("v", C::Len(b(rv("v"))))])) },
+            1 => C::Repeat { n: b(C::Len(b(rv("t")))), i: Some("ri".into()), body: b(comp(vec![sv("row", C::Get(b(rv("t")), b(rv("ri")))), logv("row", C::Len(b(rv("row.value"))))])) },
+            2 => logv("get", C::GetProperty(b(rv("t")), b(rv("oddkey")))),
+            3 => logv("len", C::Len(b(rv("t")))),
+            4 => logv("pop", C::Len(b(C::PopTable(b(rv("t")))))),
+            5 => comp(vec![C::Append(b(int(5)), b(rv("t"))), logv("len", C::Len(b(rv("t"))))]),
+            6 => comp(vec![C::SetProperty(b(int(30)), b(rv("t")), b(rv("oddkey"))), logv("len", C::Len(b(rv("t"))))]),
+            7 => logv("to_array", C::Len(b(call("std.to_array", vec![rv("t")])))),
+            8 => logv("min", C::Len(b(call("std.min", vec![rv("t")])))),
+            9 => logv("sorted", C::Len(b(call("std.sorted", vec![rv("t")])))),
+            10 => logv("filter", C::Len(b(call("std.filter", vec![C::Function("cb".into()), rv("t")])))),
+            11 => logv("map", C::Len(b(call("std.map", vec![C::Function("cb".into()), rv("t")])))),
+            12 => logv("eq", bin(BinOp::Equals, rv("t"), rv("t"))),
+            _ => comp(vec![sv("copy", C::CreateTable), C::ForEach { i: None, k: Some("k".into()), v: Some("v".into()), iterable: b(rv("t")), body: b(C::SetProperty(b(rv("v")), b(rv("copy")), b(rv("k")))) }, logv("copied", C::Len(b(rv("copy"))))]),
+        });
+        cards.push(sg("done", int(1)));
+        module(vec![("main", func(&[], cards)), ("main2", func(&[], vec![])), ("cb", func(&["k", "v", "i"], vec![C::Return(b(int(1)))]))])
+    }
+}
